@@ -45,18 +45,16 @@ SAFillRow(A, S, Pt, om, marker, rowbeg, i) ==
 \* single thread: the marker is carried from row to row in both passes
 SARun(A, S, Pt, om) ==
     LET fresh == [c \in 0..(Pt.m - 1) |-> -1]
-        P1[i \in 0..A.n] ==
-            IF i = 0 THEN [marker |-> fresh, w |-> <<>>]
-            ELSE LET r == SACountRow(A, S, Pt, om, P1[i - 1].marker, i - 1)
-                 IN  [marker |-> r.marker, w |-> Append(P1[i - 1].w, r.w)]
-        widths == P1[A.n].w
-        ptrf[i \in 0..A.n] == IF i = 0 THEN 0 ELSE ptrf[i - 1] + widths[i]
-        P2[i \in 0..A.n] ==
-            IF i = 0 THEN [marker |-> fresh, rows |-> <<>>]
-            ELSE LET r == SAFillRow(A, S, Pt, om, P2[i - 1].marker, ptrf[i - 1], i - 1)
-                 IN  [marker |-> r.marker, rows |-> Append(P2[i - 1].rows, r.row)]
-    IN  [P |-> FromRows(A.n, Pt.m, P2[A.n].rows),
-         widthsOK |-> \A i \in 1..A.n : widths[i] = Len(P2[A.n].rows[i])]
+        order == [i1 \in 1..A.n |-> i1 - 1]
+        cnt   == FoldLeft(LAMBDA st, i : LET r == SACountRow(A, S, Pt, om, st.marker, i)
+                                         IN  [marker |-> r.marker, w |-> Append(st.w, r.w)],
+                          [marker |-> fresh, w |-> <<>>], order)
+        \* row_beg = P->ptr[i] = sum of the counted widths of the rows before i
+        fill  == FoldLeft(LAMBDA st, i : LET r == SAFillRow(A, S, Pt, om, st.marker, st.beg, i)
+                                         IN  [marker |-> r.marker, rows |-> Append(st.rows, r.row), beg |-> st.beg + cnt.w[i + 1]],
+                          [marker |-> fresh, rows |-> <<>>, beg |-> 0], order)
+    IN  [P |-> FromRows(A.n, Pt.m, fill.rows),
+         widthsOK |-> cnt.w = [i1 \in 1..A.n |-> Len(fill.rows[i1])]]
 
 \* ------------------------------------------------------------------ predicates
 \* row i of (I - omega D_F^-1 A_F) P_tent for piecewise-constant P_tent (ids), as documented:
